@@ -192,6 +192,11 @@ def replay(pyhf, backend, precision, chunk, seed):
         model = models[key]
         data = tb.astensor(np.asarray([53.0] + list(model.config.auxdata), dtype=np.float64))
         stub = Stub(pyhf, curves)
+        # a crossing exactly ON the (extended) bounds is on the edge of the scanned range, not inside it: whether the tie
+        # is attributed to the bracket's closed or open end (`>=`/`<` in best_bracket) is not the property's business --
+        # such runs are compared when they return, and only counted when they raise
+        fb = [frac(b) for b in case["finalBounds"]]
+        on_edge = bool(case["edge"]) or any(x in fb for x in X)
         use_rtol = None if ri % 2 == 0 else 1e-5          # default root-finder tolerance / a forwarded one
         rtol = DEFAULT_RTOL if use_rtol is None else use_rtol
         kw = {"test_stat": "q"}
@@ -211,11 +216,11 @@ def replay(pyhf, backend, precision, chunk, seed):
                 else:
                     ret = UL.toms748_scan(data, model, lo, hi, level=level, **kw)
             except Exception as e:  # noqa: BLE001
-                if case["edge"]:
+                ltags, level_seen = level_tags(level, list(P.seen), "toms748_scan")
+                if on_edge and not ltags:
                     o = f"{type(e).__name__}"
                     out["edge"][o] = out["edge"].get(o, 0) + 1
                     return
-                ltags, level_seen = level_tags(level, list(P.seen), "toms748_scan")
                 what = f"{entry}(scan=None, level={level:g}) failed: {type(e).__name__}: {e}"
                 if ltags:
                     what += f" -- the scan received level={level_seen:g}, the caller passed {level:g}"
@@ -229,6 +234,8 @@ def replay(pyhf, backend, precision, chunk, seed):
         if case["edge"]:
             out["edge"]["returned"] = out["edge"].get("returned", 0) + 1
             return
+        if on_edge:
+            out["edge"]["returned_lower"] = out["edge"].get("returned_lower", 0) + 1
         obs, exp = _fl(tb, ret[0]), [_fl(tb, x) for x in ret[1]]
         if len(exp) != 5:
             add("automatic scan did not return five expected limits", dict(ctx, returned=exp), tags + ["layout"])
